@@ -69,22 +69,26 @@ C06_Valid     == Kind = "valid" => Verify(S, A)
 C06_Order     == Kind = "order" => (Verify(S, A) <=> StrictlyAscending(S))
 \* every single-step corruption of a valid list is rejected; re-indexing onto another position of the
 \* same key exists only in lists with repeated addresses
+\* the same guardian signing at two of its positions (lists with repeated addresses) is counted twice: rejected
+C06_NoDoubleCount == (\E i, j \in 1..Len(S) : i # j /\ S[i].signer = S[j].signer) => ~VerifyStrict(S, A)
 C06_CorruptionFails ==
     /\ Kind \in {"body", "swap", "duplicate", "outsider", "othermember", "malformed", "otherbody"} => ~Verify(S, A)
     /\ (Kind = "reindex" /\ RepeatFree(A)) => ~Verify(S, A)
+\* the oracle VerifyStrict is sound for the three conditions of the statement, equals them on repeat-free
+\* lists, and never counts a guardian twice
 C06_Oracle ==
-    /\ VerifyStrict(S, A) \in AllowedVerdicts(S, A)
-    /\ RepeatFree(A) => AllowedVerdicts(S, A) = {Verify(S, A)}
-    /\ AllowedVerdicts(S, A) # {}
+    /\ VerifyStrict(S, A) => Verify(S, A)
+    /\ RepeatFree(A) => (VerifyStrict(S, A) <=> Verify(S, A))
+    /\ VerifyStrict(S, A) => DistinctSigners(S)
 C06_FastForms == /\ AscAdj(S) <=> StrictlyAscending(S)
                  /\ DistinctFast(S) <=> DistinctSigners(S)
                  /\ VerifyFast(S, A) <=> Verify(S, A)
                  /\ AllowedFast(S, A) = AllowedVerdicts(S, A)
+                 /\ VerifyStrictFast(S, A) <=> VerifyStrict(S, A)
 
 \* the explorer's gate (vaa_gossip_consumer.go verifyVAA): at least one signature, a quorum of the list, Verify
-ExplorerAllowed(sigs, addrs) ==
-    IF Len(sigs) = 0 \/ Len(sigs) < Q(Len(addrs)) THEN {FALSE} ELSE AllowedVerdicts(sigs, addrs)
+ExplorerExpected(sigs, addrs) == Len(sigs) > 0 /\ Len(sigs) >= Q(Len(addrs)) /\ VerifyStrict(sigs, addrs)
 
 C06_Emit == PrintT(<<"C06", ToJson([addrs |-> A, sigs |-> S, kind |-> Kind, verify |-> Verify(S, A),
-                                    allowed |-> AllowedVerdicts(S, A), explorer |-> ExplorerAllowed(S, A)])>>)
+                                    allowed |-> {VerifyStrict(S, A)}, explorer |-> {ExplorerExpected(S, A)}])>>)
 =============================================================================
